@@ -5,7 +5,9 @@ import "github.com/bradenaw/juniper/iterator"
 //verif:pkg ./container/tree
 // VerifTreeRange args: reverse(0/1), height, rootN, zeroAt
 //verif:case C01 thorough VerifTreeRange 0..1 1 -1 -1..0 @unwind=600
-//verif:case C01 quick VerifTreeRange 0..1 1..2 -1 -1 @variant=bf4 @unwind=600
+//verif:case C01 quick VerifTreeRange 0..1 1 -1 -1 @variant=bf4 @unwind=600
+//verif:case C01 quick VerifTreeRange 0..1 2 1 -1 @variant=bf4 @unwind=600
+//verif:case C01 thorough VerifTreeRange 0..1 2 2..3 -1 @variant=bf4 @unwind=600
 //verif:case C01 thorough VerifTreeRange 0..1 1..2 -1 0 @variant=bf4 @unwind=600
 //verif:case C01 thorough VerifTreeRange 0..1 3 1 -1 @variant=bf4 @unwind=600
 //verif:case C01 thorough VerifTreeRange 0..1 2 1 -1 @unwind=600
